@@ -322,6 +322,7 @@ PROPS["C12"] = {
 PROPS["C08"] = {
     "title": "Curve fitting returns a connected chain within the error bound",
     "gen_modules": ["Basis", "Fit"],
+    "props_modules": ["C08", "C08Error"],
     "corr_n": (3000, 60000),
     "search_n": (300, 6000),
     "technique": "Lean 4 theorems about fit_curve's block loop, max_points_to_fit, fit_line and newton_raphson_root_find translated from fit.rs on every run, and about a recursion skeleton of fit_curve_cubic "
@@ -331,8 +332,10 @@ PROPS["C08"] = {
                   "the last ends at the last point (blocks_cover, fit_curve_blocks_cover - the invariant whose violation was defect F3); hence fit_curve returns a connected chain from the first to the last "
                   "point whenever the per-block fitter does (fit_curve_chain), and the recursion skeleton of fit_curve_cubic (accept / split at the worst point / line for 2 points) does so for every "
                   "accept-and-split policy (fitCubic_chain, fit_curve_fitCubic_chain); fit_line interpolates its end points; newton_raphson_root_find returns a parameter in [0,1] and keeps exact hits fixed "
-                  "(newton_in_unit, newton_fixed_at_hit_*: repair F10). NOT proved: that an accepted candidate is within max_error of every sample (generate_bezier's least squares, max_error_for_curve): "
-                  "checked on the real code by the search (every sample within max_error of the chain by dense sampling + refinement; chain connected bit-exactly; ends exact).",
+                  "(newton_in_unit, newton_fixed_at_hit_*: repair F10). accepted_within_error (Props/C08Error): max_error_for_curve's per-sample closure and selection loop are translated, "
+                  "and whatever candidate fit_curve_cubic accepts (reported error <= max_error) has every sample within max_error of the curve point at that sample's parameter, for any monotone "
+                  "square root - with newton_in_unit that parameter is in [0,1]. NOT proved: the quality of generate_bezier's least squares (how often a candidate is accepted, i.e. how many "
+                  "curves are returned); the search checks every sample within max_error of the chain by dense sampling + refinement, chain connected bit-exactly, ends exact.",
     "level_note": "fit_curve_cubic's numeric kernel (generate_bezier, chord_length_parameterize, reparameterize) is modelled only as an arbitrary accept/split policy. " + COMMON_NOTE,
     "rule": "corr: number of points 0..5000 (all small n, random large n): (start, length) of every block the implementation fits (observed through the joints of the returned chain for a fitter-independent "
             "polyline input) vs the generated loop. search: sample sets from lines, arcs, noisy curves, duplicates, collinear runs, 2..2000 points, max_error 0.01..10: chain connectivity, end points, "
